@@ -7,7 +7,9 @@ mod case;
 mod catalog;
 mod exec;
 mod families_gen;
+mod seams;
 mod skew;
+mod zip;
 mod stats;
 mod wal;
 
@@ -113,6 +115,11 @@ fn cmd_run(args: &[String]) -> i32 {
                 };
                 skew::run(&cat, &cfg, &mut stats, rs)
             }
+            "seams" => seams::run(&cat, &seams::Config { focus: focus.clone() }, &mut stats, rs),
+            "zip" => {
+                let max_len = arg(args, "--max-len").map(|x| x.parse().unwrap()).unwrap_or(16 << 10);
+                zip::run(&zip::Config { focus: focus.clone(), max_len }, &mut stats, rs, &cat)
+            }
             other => {
                 eprintln!("unknown engine {other}");
                 return 2;
@@ -202,6 +209,11 @@ fn cmd_minimise(args: &[String]) -> i32 {
         return 0;
     }
     // clauses with an expected value keep the valid encoding intact and only shrink the suffix
+    if matches!(c.clause.as_str(), "sinks" | "sources" | "eof-reject" | "zip-roundtrip" | "ctor-index") {
+        // the input is a valid encoding, a content block or goes with a program: kept as it is
+        std::fs::write(outp, serde_json::to_vec_pretty(&v).unwrap()).unwrap();
+        return 0;
+    }
     let keep = if c.clause == "self-delimiting" || c.clause == "batch" || c.clause == "script" {
         c.enc_len.min(c.input.len())
     } else {
